@@ -79,8 +79,10 @@ class Target:
         order = sum(e.D)
         if order > 2:
             raise TargetError("derivative order > 2")
-        space, nc, role = self.interp.bf[bf.name]
-        jet = self.env.basis_jet(space, "v" if bf.name == "v" else "u", order)
+        # pyiga calls the single basis function of a linear form 'u'; the reference calls it 'v'
+        name = "v" if self.interp.arity == 1 else bf.name
+        space, nc, role = self.interp.bf[name]
+        jet = self.env.basis_jet(space, "v" if name == "v" else "u", order)
         idx = []
         for k, n in enumerate(e.D):
             idx += [k] * n
